@@ -70,16 +70,17 @@ TD15_QUICK = [('tdigest.rs', 'c15_td_endpoints_1', 'bounded(1 centroid; weights 
               ('tdigest.rs', 'c15_td_endpoints_2', 'bounded(2 centroids; weights 1..4, grid j/4)'),
               ('tdigest.rs', 'c15_td_empty', 'complete: empty digest, all q in [0,1], all non-NaN x'),
               ('tdigest.rs', 'c15_td_empty_wrapper', 'complete: public wrapper on an empty digest, all q in [0,1], all non-NaN x'),
-              ('tdigest.rs', 'c15_td_merge_empty_backlog_noop', 'bounded(2 centroids)')]
+              ('tdigest.rs', 'c15_td_merge_empty_backlog_noop', 'bounded(2 centroids)'),
+              ('tdigest.rs', 'c15_td_cdf_shape_1', 'bounded(1 centroid; x on j/8)'),
+              ('tdigest.rs', 'c15_td_consistent_1', 'bounded(1 centroid, strict knots)')]
 TD15_THOROUGH = [('tdigest.rs', 'c15_td_endpoints_3', 'bounded(3 centroids)'),
                  ('tdigest.rs', 'c15_td_quantile_shape_1', 'bounded(1 centroid; q on j/32)'),
                  ('tdigest.rs', 'c15_td_quantile_shape_2', 'bounded(2 centroids; q on j/32)'),
-                 ('tdigest.rs', 'c15_td_cdf_shape_1', 'bounded(1 centroid; x on j/8)'),
                  ('tdigest.rs', 'c15_td_cdf_shape_2', 'bounded(2 centroids; x on j/8)'),
-                 ('tdigest.rs', 'c15_td_consistent_1', 'bounded(1 centroid, strict knots)'),
                  ('tdigest.rs', 'c15_td_consistent_2', 'bounded(2 centroids, strict knots)')]
 TD16_QUICK = [('tdigest.rs', 'c16_td_insert_weighted_inner', 'complete: all finite x, all finite positive w, all non-NaN min/max (loop-free)'),
               ('tdigest.rs', 'c16_td_zero_weight_noop', 'complete: all finite x (loop-free)'),
+              ('tdigest.rs', 'c16_td_count_sum_exact', 'bounded(2 centroids; weights 1..4, grid j/4)'),
               ('tdigest.rs', 'c16_td_insert_weighted_wrapper', 'complete: public wrapper, all finite x, all finite positive w (loop-free)'),
               ('tdigest.rs', 'c19_td_clear_is_fresh', 'bounded(2 centroids + 1 backlog entry): clear() empties the digest'),
               ('tdigest.rs', 'c15_td_empty', 'complete: empty digest')]
